@@ -380,7 +380,7 @@ def unwrap_conv(d):
     """Iterator conversions (iterator -> const_iterator) are transparent."""
     d = strip(d)
     while isinstance(d, dict) and d.get('k') == 'ctor' and len(d.get('args') or []) == 1 and \
-            'iterator' in (d.get('ty') or ''):
+            any(t in (d.get('ty') or '') for t in ('iterator', 'StringPiece', 'basic_string', 'string')):
         d = strip(d['args'][0])
     return d
 
@@ -550,9 +550,10 @@ def reject_if(ctx, rid, f, pred, pol, what, construct, success=None, min_edges=1
         for i, s in enumerate(b['succ']):
             if s is None:
                 continue
-            ef = f.edge_fact(bid, i)
-            if ef and ef[1] == pol and pred(ef[2]):
-                edges.append((bid, i, s, ef))
+            for ef in f.edge_facts(bid, i):
+                if ef[1] == pol and pred(ef[2]):
+                    edges.append((bid, i, s, ef))
+                    break
     if len(edges) < min_edges:
         ctx.violation(rid, f.name, construct + ':guard-absent', f.loc,
                       '%s — no branch on that condition is left in %s' % (what, f.name))
@@ -640,8 +641,7 @@ def skip_conditions_exact(ctx, rid, f, loop, is_action, allowed_skip, what, cons
     hit = [None]
 
     def edge_ok(b, i, s):
-        ef = f.edge_fact(b, i)
-        if ef:
+        for ef in f.edge_facts(b, i):
             for pred, pol in allowed_skip:
                 if ef[1] == pol and pred(ef[2]):
                     return False
@@ -663,8 +663,7 @@ def reached_only_via(ctx, rid, f, e, pred, pol, what, construct):
     satisfies pred with the given polarity (structural guard; unlike guard facts this is not
     affected by later writes)."""
     def edge_ok(b, i, s):
-        ef = f.edge_fact(b, i)
-        return not (ef and ef[1] == pol and pred(ef[2]))
+        return not any(ef[1] == pol and pred(ef[2]) for ef in f.edge_facts(b, i))
     r = f.find_path(None, lambda x: x is e, from_succ=f.entry, edge_ok=edge_ok, sensitive=False)
     ctx.check(rid, r is None, f.name, construct, f.where(e),
               '%s — `%s` in %s' % (what, e.get('src', e.get('name', ''))[:70], f.name),
